@@ -219,4 +219,18 @@ PROPS["C11"] = {
     "level_note": "Partial: inotify semantics, queue overflow, goroutine scheduling and timing are the kernel's and runtime's; the model covers one directory (directories are independent in watch.update).",
 }
 
+PROPS["C20"] = {
+    "level": "proof",
+    "streams": ["reconf"],
+    "timeout": 2400,
+    "trusted_base": ["closing an fsnotify watcher releases its inotify descriptor, its kernel watches and its reader goroutine (observed per case through /proc/self/fd, fdinfo and runtime.NumGoroutine)",
+                     "descriptor shortage is produced with RLIMIT_NOFILE lowered to the number of open descriptors for the duration of one Configure call",
+                     "the cache mutex serialises Configure with queries (C12)"],
+    "assumptions": ["I11: 'behaves like a cache newly created with the resulting options' is observed on devices, file errors, configured directories, and on whether new Specs in final/dropped directories become visible without/with Refresh",
+                    "resource footprint = open descriptors, inotify instances, kernel watches and goroutines of the process, relative to the footprint before the cache existed"],
+    "technique": "Lean 4 proof: Configure over any option history equals newCache of the accumulated options (fold lemma), resources bounded by one watcher and |dirs| watches whatever the history, nil watcher => every query rescans; correspondence on option histories up to 200 steps with /proc resource accounting, descriptor exhaustion at a chosen step, and the package default cache in a child process",
+    "level_text": "Kernel-checked theorems over the model of configure/Configure/NewCache/default Configure: for every initial option list and every non-empty history of option lists (every environment: which directories exist, whether a descriptor can be had at each step) the final state equals the state of a cache freshly created with the accumulated options under the last step's environment; the resources held (watchers, watch goroutines, kernel watches) are at most 1, 1 and the number of distinct configured directories whatever the history length; when no descriptor can be had, auto-refresh queries always rescan. Tied to the code by running generated histories (1-200 steps) on a real cache and comparing with a fresh cache: same answers, the same descriptor/inotify/watch/goroutine footprint as the fresh cache and as the model predicts, nothing left after stop, new Specs picked up automatically iff auto-refresh is finally on and never from dropped directories; plus RLIMIT_NOFILE exhaustion at a chosen step and the default cache in a child process (Configure first / after use / twice).",
+    "level_note": "Partial: descriptor and goroutine release is the runtime's and fsnotify's; the model counts resources per watcher.",
+}
+
 NOT_APPLICABLE = {}
